@@ -15,8 +15,8 @@ from vf.util import block_shape, closure_has_zero, graph_of, max_blocks, shapes_
 
 PROPERTY = "C03"
 WORKERS = {"quick": 16, "thorough": 16}
-CASES = {"quick": 600, "thorough": 30000}
-TIME = {"quick": 50, "thorough": 1100}
+CASES = {"quick": 600, "thorough": 3600}
+TIME = {"quick": 50, "thorough": 240}
 RULE = (
     "random programs biased to layout-changing rewrites (sliding-window reductions, rechunk/slice/concatenate, reshape, "
     "map_blocks); metadata (shape, chunks, dtype) is captured before any optimization, then every key of __dask_keys__() "
